@@ -11,7 +11,7 @@ from job_shop_lib.graphs import EdgeType, build_solved_disjunctive_graph
 
 from .. import feasible, gen, obs
 from .. import fingerprint as fp
-from ..lib import build_instance, ref
+from ..lib import build_filter, build_instance, ref
 
 ID = "C16"
 RULE = (
@@ -26,7 +26,7 @@ RULE = (
     "of each agent-task variant). Same-job operations sharing a machine also "
     "get both disjunctive edges, except that the job-chain edge itself is "
     "typed conjunctive. Solved graph: positive-duration "
-    "instance x complete feasible schedule that is dispatcher-built, CP-SAT "
+    "instance x complete feasible schedule that is dispatcher-built (optionally with a built-in or user-written ready-operations filter installed and queried; operations are dispatched from all ready ones), CP-SAT "
     "built, or right-shifted (feasible, not semi-active): exact edge set, "
     "acyclic (own Kahn sort), longest duration-weighted source-sink path (own "
     "DP) <= makespan and == makespan for dispatcher-built schedules. "
@@ -50,6 +50,7 @@ def strategy(tier):
             "inst": pos,
             "history": gen.histories(max_len=20),
             "how": st.sampled_from(["dispatcher", "dispatcher", "cpsat", "shifted", "shifted"]),
+            "filters": gen.filter_configs(max_len=2, custom=True),
             "delays": st.lists(st.integers(0, 4), min_size=1, max_size=12),
         }
     )
@@ -230,7 +231,12 @@ def longest_path(n_ops, durs, edges, src, snk):
 
 
 def build_schedule(case, inst, instance):
-    d = Dispatcher(instance)
+    # a ready-operations filter (built-in or user-written) may be installed;
+    # operations are dispatched from all ready ones, offered or not
+    d = Dispatcher(instance, build_filter(case.get("filters")))
+    for _ in range(len(case["history"]) % 3):
+        d.current_time()
+        d.available_operations()
     model = ref(inst)
     history = case["history"]
     k = 0
